@@ -39,6 +39,25 @@ type storeCase struct {
 	Metrics  []sMetric `json:"metrics"`
 	OmitProg bool      `json:"omit_prog"`
 	EmitTS   bool      `json:"emit_ts"`
+	// Phase2 (C13): after the first scrape the store is changed and the SAME
+	// exporter is scraped again
+	Phase2 *sPhase2 `json:"phase2,omitempty"`
+}
+
+// sUpdate changes one datum in place.
+type sUpdate struct {
+	M      int    `json:"m"`
+	LV     int    `json:"lv"`
+	I      int64  `json:"i,omitempty"`
+	F      c21F   `json:"f,omitempty"`
+	Obs    []c21F `json:"obs,omitempty"`     // further histogram observations
+	TimeNs int64  `json:"time_ns,omitempty"` // 0: the update carries the datum's current timestamp
+}
+
+type sPhase2 struct {
+	Updates []sUpdate `json:"updates,omitempty"`
+	Rekey   []int     `json:"rekey,omitempty"`  // metrics replaced (as a reload does) by a version whose keys are renamed
+	AddKey  []int     `json:"addkey,omitempty"` // metrics replaced by a version with one more key
 }
 
 func (m *sMetric) kind() metrics.Kind { return metrics.Kind(m.Kind) }
@@ -59,6 +78,18 @@ func (m *sMetric) ranges() []datum.Range {
 func (c *storeCase) build() ([]*metrics.Metric, error) {
 	var out []*metrics.Metric
 	for i := range c.Metrics {
+		m, err := c.buildOne(i)
+		if err != nil {
+			return nil, err
+		}
+		out = append(out, m)
+	}
+	return out, nil
+}
+
+// buildOne creates the real metric object of metric i.
+func (c *storeCase) buildOne(i int) (*metrics.Metric, error) {
+	{
 		sm := &c.Metrics[i]
 		m := metrics.NewMetric(sm.Name, sm.Prog, sm.kind(), sm.typ(), sm.Keys...)
 		m.SetSource(fmt.Sprintf("%s:%d:1", sm.Prog, i+1))
@@ -84,9 +115,8 @@ func (c *storeCase) build() ([]*metrics.Metric, error) {
 				}
 			}
 		}
-		out = append(out, m)
+		return m, nil
 	}
-	return out, nil
 }
 
 var (
